@@ -549,6 +549,9 @@ def listing_edits(B, rec, case):
             led["aligns"] = [[boff[b]["off"], a] for b, a in t["alignment"] if b in boff]
             nonempty = [b for b in t["blocks"] if b["size"]]
             led["tail_code"] = bool(nonempty[-1]["code"]) if nonempty else True
+            # the patch's own CFI directives: offset inside the patch bytes, "name [args]"
+            led["cfi"] = [[boff[b]["off"] + k, "%s %s" % (d[0], "[" + ", ".join(str(a) for a in d[1]) + "]")]
+                          for b, k, ds in p.get("cfi", []) if b in boff for d in ds]
         # where the code applied it: offset of the block it edited inside its interval + the offset it used
         boffs = {b["id"]: b["off"] for b in r["before"]["blocks"]}
         led["_pos"] = boffs.get(r["do"]["block"], -1) + r["do"]["offset"]
@@ -557,9 +560,9 @@ def listing_edits(B, rec, case):
     return out
 
 
-def run_listing(case):
+def run_listing(case, pre=None):
     """Run a case on the real code; returns dict with before/after dumps, the
-    listing edits and the outcome."""
+    listing edits and the outcome.  `pre(B)` runs on the built module before apply()."""
     import logging
 
     logging.disable(logging.CRITICAL)
@@ -575,6 +578,7 @@ def run_listing(case):
     B.id0 = [rec.idm.of(b) for b in B.blocks]
     B.addr0 = [(b.section.name != ".text", b.address or 0, b.size != 0) for b in B.blocks]
     err = None
+    pre_result = pre(B, rec.idm) if pre is not None else None
     try:
         register_edits(B, ctx, case.get("edits", []))
         with recording(rec):
@@ -590,7 +594,7 @@ def run_listing(case):
     else:
         err_where = err_line = None
     B.dump1 = irdump.dump_ir(B.m, rec.idm)
-    out = {"B": B, "rec": rec, "err": err, "err_where": err_where, "err_line": err_line, "before": B.dump0, "after": B.dump1}
+    out = {"B": B, "rec": rec, "err": err, "pre": pre_result, "err_where": err_where, "err_line": err_line, "before": B.dump0, "after": B.dump1}
     out["edits"] = listing_edits(B, rec, case) if err is None else None
     return out
 
